@@ -786,3 +786,38 @@ def rule_dd_length_nonnegative(ctx):
                              "is accepted and the element becomes unreadable" % a[1])
     ctx.floor("NEGLEN", 1, n, "(caller-supplied lengths stored in a descriptor)")
     return n
+
+
+def rule_transfer_bound_has_position(ctx):
+    """POSNTERM (C01): a transfer of `length` bytes starts at the handle's position, so it ends at posn + length.  In Hread and
+    Hwrite every comparison that bounds `length` by the element's length (`data_len`) compares posn + length; `length > data_len`
+    alone lets a write at a later position run past the end of the element into its neighbour."""
+    prog = ctx.prog
+    n = 0
+    for fn in ("Hread", "Hwrite"):
+        f = prog.func(fn)
+        if f is None:
+            ctx.unrecognised("POSNTERM", "POSNTERM:%s" % fn, "-", "%s not found" % fn)
+            continue
+        seen = set()
+        for b in f.blocks.values():
+            t = b.get("term")
+            if not t or t.get("cond") is None:
+                continue
+            for x in walk(t["cond"], True):
+                if x[0] == "bin" and x[1] in (">", ">=", "<", "<="):
+                    names = {y[1] for y in walk(x, True) if y[0] == "var"} | {y[2] for y in walk(x, True) if y[0] == "mem"}
+                    if "data_len" in names and "length" in names:
+                        r = render(x)
+                        if r in seen:
+                            continue
+                        seen.add(r)
+                        n += 1
+                        key = "POSNTERM:%s#%d" % (fn, len(seen))
+                        if "posn" in names:
+                            ctx.holds("POSNTERM", key, f.where(t.get("l")), "`%s`" % r[:70], nontrivial=True)
+                        else:
+                            ctx.violated("POSNTERM", key, f.where(t.get("l")), "`%s` bounds the transfer by the element's length without the handle's position: a transfer that starts at posn > 0 "
+                                         "may run past the end of the element" % r[:70])
+    ctx.floor("POSNTERM", 3, n, "(comparisons of a transfer length with the element length in Hread/Hwrite)")
+    return n
